@@ -11,7 +11,8 @@ RULE = ("exhaustive: every string of length 0..L over the 3-letter amino-acid su
         "composition vectors lie exactly at sqrt(2)*k, k=1..40; random: amino-acid clonal families 1-60 sequences with empty "
         "strings and duplicates, k=1..3 (hash_based k<=2 on strings <= 6). Three-way oracle: engine == brute-force DP == "
         "nearest_neighbor, as multisets. Non-trivial: the true set contains an indel pair next to a repeated letter, or a "
-        "pair at distance exactly k >= 2, or a duplicate pair.")
+        "pair at distance exactly k >= 2, or a duplicate pair."
+        " Also: dense collections (all single substitutions of 1-2 founders), and a prior search of the same sequences in another mode / radius / on a sub-collection before the judged call.")
 ASSUMPTIONS = ["hash_based is exponential in max_edits; its radius-3 cases are limited to strings of length <= 3",
                "amino-acid alphabet only (kdtree's composition vector is defined on the 20 letters)"]
 
@@ -62,13 +63,43 @@ def check(case, rec):
     want = O.neighbours_self(seqs, k, O.lev)
     cl = classify(seqs, k, want)
     rec.note(case, bool(set(cl) & {"indel_next_to_run", "pair_at_radius_k>=2", "dup_pair"}), cl + [case["engine"]])
+    prior = case.get("prior")
+    if prior:
+        # the engines are interchangeable "for every collection": also when the same process has just searched the same
+        # sequences in another mode, with another radius or on a sub-collection (results of the prior call are not judged here)
+        pk = dict(max_edits=k)
+        if prior == "hamming":
+            pk["custom_distance"] = "hamming"
+        elif prior == "other_k":
+            pk["max_edits"] = 1 if k > 1 else 2
+        pseqs = list(seqs)[::2] if prior == "subset" and len(seqs) >= 2 else list(seqs)
+        if not (case["engine"] == "hash_based" and pk["max_edits"] > 2 and max((len(x) for x in pseqs), default=0) > 6):
+            call("prior-search", ENG[case["engine"]], pseqs, **pk)
     got = trip(call("search", ENG[case["engine"]], list(seqs), max_edits=k, **kw))
-    same_multiset("engine-vs-oracle", got, want, f"engine={case['engine']} k={k} n={len(seqs)}")
+    same_multiset("engine-vs-oracle" if not prior else "engine-vs-oracle-after-prior-call", got, want,
+                  f"engine={case['engine']} k={k} n={len(seqs)}" + (f" after a {prior} call on the same sequences" if prior else ""))
     if k <= 4 or max(len(x) for x in seqs) <= 12:
         # (symdel enumerates all deletion subsets up to size k: the three-way comparison is skipped for the large radii of
         #  the boundary family, where the brute-force oracle alone decides)
         ref = trip(call("search", pyrepseq.nearest_neighbor, list(seqs), max_edits=k))
         same_multiset("engine-vs-nearest_neighbor", got, ref, f"engine={case['engine']} k={k} n={len(seqs)}")
+
+
+def check_dense(case, rec):
+    """Dense repertoire: all single substitutions of 1-3 founders - hundreds of mutual neighbours, many exactly on the radius, spread
+    over many tree leaves / deletion buckets; distances known analytically (G.dense_collection)."""
+    k = case["k"]
+    seqs, meta = G.dense_collection(case["founders"], case.get("per_founder"), case.get("step", 1))
+    want = G.dense_neighbours(meta, k)
+    rec.note(case, True, [f"n={len(seqs)}", case["engine"], f"k={k}"])
+    got = trip(call("search", ENG[case["engine"]], list(seqs), max_edits=k))
+    same_multiset("dense-neighbour-set", got, want, f"engine={case['engine']} k={k} n={len(seqs)} (all substitutions of {case['founders']} founder(s))")
+
+
+def enum_dense(tier):
+    yield {"engine": "kdtree", "founders": 2, "k": 1}
+    yield {"engine": "kdtree", "founders": 1, "k": 2}
+    yield {"engine": "hash_based", "founders": 1, "k": 1, "per_founder": 80, "step": 3}
 
 
 def check_planted(case, rec):
@@ -175,7 +206,10 @@ def random_case(draw, tier="quick"):
             seqs = [s[:6] for s in seqs]
         if draw(st.integers(0, 3)) == 0 and k < 3:
             seqs = draw(frame_shift_family(alpha, 6 if k == 2 else 12))
-        return {"seqs": seqs, "k": k, "engine": engine}
+        case = {"seqs": seqs, "k": k, "engine": engine}
+        if draw(st.integers(0, 2)) == 0 and k < 3:
+            case["prior"] = draw(st.sampled_from(["hamming", "other_k", "subset"]))
+        return case
     k = draw(st.sampled_from([1, 2, 2, 3, 3, 4]))
     seqs = draw(G.clonal_family(alpha=alpha, max_size=60, cdr3_like=draw(st.booleans()), max_edits=4))
     if draw(st.integers(0, 4)) == 0:
@@ -183,12 +217,15 @@ def random_case(draw, tier="quick"):
     case = {"seqs": seqs, "k": k, "engine": engine}
     if draw(st.booleans()):
         case["compression"] = draw(st.sampled_from([1, 2, 3, 5, 20]))
+    if draw(st.integers(0, 3)) == 0:
+        case["prior"] = draw(st.sampled_from(["hamming", "other_k", "subset"]))
     return case
 
 
 SUBS = [
     Sub("exhaustive", check, enum=enum_cases),
     Sub("planted_large", check_planted, enum=enum_planted),
+    Sub("dense", check_dense, enum=enum_dense),
     Sub("long_runs", check_long_runs, enum=enum_long_runs),
     Sub("random", check, strategy=lambda tier: random_case(tier), budget=(2500, 12000)),
 ]
